@@ -64,7 +64,11 @@ CLAIM = dict(
          "Lean model (writes, finished, received value, slot); 2-3 concurrent renders of generated template sets under "
          "~200 (quick) / ~5000 (thorough) gate-release orders, each task's text compared with its solo text; a family of "
          "renders with different effective autoescape (select_autoescape by extension, autoescape true/false/volatile "
-         "blocks) calling the awaiting macros of one cached library, all release orders enumerated for small cases; attribute "
+         "blocks) calling the awaiting macros of one cached library, all release orders enumerated for small cases; "
+         "copy-then-mutate productions: every filter/constructor that promises a new container (|list, |sort, |unique, "
+         "|reverse, |batch, |slice, |map, |select, |dictsort, |items, dict(), x[:], namespace(), .copy()) over a shared list/dict "
+         "(module export, environment global, template global, shared data), the result mutated in place between await "
+         "points, copy and original printed, shared inputs compared afterwards; attribute "
          "snapshots of Environment/Template/loader before and after.",
     note="Partial: the model's shared-state list (= `_module` + template cache; lexer cache and spontaneous environments "
          "are compile-time) is checked by the source inventory and by snapshots on the explored runs, not proved complete; "
@@ -696,13 +700,156 @@ def l_autoescape(ctx, res, cov, jinja2):
     return schedules, len(distinct)
 
 
+# --------------------------------------------------------------------------------------------------
+# L-e2e (copy then mutate): a NEW container made from a shared one is changed in place between await points
+# --------------------------------------------------------------------------------------------------
+
+CM_LIB = "{% set palette = ['r', 'g', 'b', 'g'] %}{% set conf = {'a': 'x', 'b': 'y'} %}{% macro m() %}{{ aw(1) }}{% endmacro %}L"
+
+# source expression -> kind; `lib.*` = export of a module imported without context (cached, shared), gl/gd = environment
+# globals, tg/td = template-level globals handed to get_template, sl/sd = the same objects passed to every render as data
+CM_SOURCES = {"lib.palette": "list", "gl": "list", "tg": "list", "sl": "list", "lib.conf": "dict", "gd": "dict", "td": "dict",
+              "sd": "dict"}
+
+# every filter / constructor whose contract is a new container: (expression over S, kind of the result)
+CM_COPIES = {
+    "list": [("S|list", "strs"), ("S|sort", "strs"), ("S|unique|list", "strs"), ("S|reverse|list", "strs"),
+             ("S|batch(2)|list", "lists"), ("S|slice(2)|list", "lists"), ("S|map('upper')|list", "strs"),
+             ("S|select|list", "strs"), ("S|reject('none')|list", "strs"), ("S[:]", "strs"), ("S|list|list", "strs"),
+             ("(S|batch(2)|list)[0]", "strs"), ("(S|slice(2)|list)[0]", "strs")],
+    "dict": [("S|dictsort", "pairs"), ("S|items|list", "pairs"), ("dict(S)", "dict"), ("namespace(S)", "ns"),
+             ("S|list", "strs"), ("S.keys()|list", "strs"), ("S.values()|sort", "strs"), ("S.copy()", "dict")],
+}
+
+# in-place changes a plain Environment allows, per kind of result (W = the task's own value)
+CM_MUTS = {
+    "strs": ["mine.append(W)", "mine.extend([W, W])", "mine.insert(0, W)", "mine.pop()", "mine.sort()", "mine.reverse()",
+             "mine.clear()", "mine.remove(mine[0])"],
+    "lists": ["mine.append([W])", "mine[0].append(W)", "mine.pop()", "mine.reverse()", "mine.clear()", "mine[0].clear()"],
+    "pairs": ["mine.append((W, W))", "mine.pop()", "mine.reverse()", "mine.clear()", "mine.sort(reverse=true)"],
+    "dict": ["mine.update({W: W})", "mine.setdefault(W, W)", "mine.pop('a')", "mine.clear()", "mine.popitem()"],
+}
+
+
+def cm_template(src, copy, rkind, mut):
+    imp = "{% import 'lib' as lib %}"
+    copy_e = copy.replace("S", src)
+    if rkind == "ns":
+        change = "{% set mine.a = who %}{{ aw(2) }}{% set mine.z = who %}"
+        show = "{{ mine.a }}{{ mine.z }}{{ mine.b }}"
+    else:
+        change = "{% set _ = " + mut.replace("W", "who") + " %}{{ aw(2) }}{% set _ = " + mut.replace("W", "who ~ '2'") + " %}"
+        show = "{{ mine }}"
+    return (imp + "{{ lib.m() }}{% set mine = " + copy_e + " %}{{ aw(1) }}" + change + "{{ aw(3) }}" + show + "|{{ " + src + " }}|"
+            + "{{ (" + copy_e + ")|string }}")
+
+
+def cm_shared():
+    """fresh shared inputs (one set per environment)"""
+    return {"gl": ["r", "g", "b", "g"], "gd": {"a": "x", "b": "y"}, "tg": ["r", "g", "b", "g"], "td": {"a": "x", "b": "y"},
+            "sl": ["r", "g", "b", "g"], "sd": {"a": "x", "b": "y"}}
+
+
+def l_copy_mutate(ctx, res, cov, jinja2):
+    import copy as _copy
+    rng = ctx.rng("copy-mutate")
+    combos = []
+    for src, skind in CM_SOURCES.items():
+        for cp, rkind in CM_COPIES[skind]:
+            for mut in ([None] if rkind == "ns" else CM_MUTS[rkind]):
+                combos.append((src, cp, rkind, mut))
+    # always: every (source, copy form) once with the first mutation; then a seeded sample / everything
+    first = {}
+    for c in combos:
+        first.setdefault((c[0], c[1]), c)
+    chosen = list(first.values())
+    rest = [c for c in combos if c not in chosen]
+    rng.shuffle(rest)
+    chosen += rest[:ctx.pick(30, len(rest))]
+    schedules = 0
+    distinct = set()
+    diffs = 0
+    skipped = []
+    forms = {}
+    who = ["A", "B", "C"]
+    for src, cp, rkind, mut in chosen:
+        tsrc = cm_template(src, cp, rkind, mut)
+        templates = {"lib": CM_LIB, "main": tsrc}
+        ntasks = 3 if rng.random() < 0.25 else 2
+
+        def build():
+            env = make_env(jinja2, templates)
+            sh = cm_shared()
+            env.globals.update(gl=sh["gl"], gd=sh["gd"])
+            t = env.get_template("main", globals={"tg": sh["tg"], "td": sh["td"]})
+            return env, t, sh
+
+        def data(i, sh):
+            return {"who": who[i], "sl": sh["sl"], "sd": sh["sd"]}
+        solo = []
+        for i in range(ntasks):
+            env, t, sh = build()
+            r, _, _ = drive([t.render_async(**data(i, sh))], lambda s, a: 0)
+            solo.append(r[0])
+        if any(r[0] != "ok" for r in solo):
+            skipped.append((tsrc, solo[0]))
+            continue
+        forms[cp] = forms.get(cp, 0) + 1
+
+        def run_one(chooser_factory, build=build, data=data, ntasks=ntasks):
+            env, t, sh = build()
+            before = _copy.deepcopy(sh)
+            positions = []
+            results, trace, options = drive([t.render_async(**data(i, sh)) for i in range(ntasks)], chooser_factory(positions))
+            mod = env.get_template("lib")._module
+            exports = None if mod is None else {"palette": list(mod.palette), "conf": dict(mod.conf)}
+            changed = [k for k in before if before[k] != sh[k]]
+            if exports is not None and exports != {"palette": ["r", "g", "b", "g"], "conf": {"a": "x", "b": "y"}}:
+                changed.append("lib exports")
+            return (results, trace, changed), positions, options
+
+        def check(payload, how, tsrc=tsrc, templates=templates, solo=solo, src=src, cp=cp, mut=mut, ntasks=ntasks):
+            nonlocal schedules, diffs
+            results, trace, changed = payload
+            schedules += 1
+            distinct.add((tsrc, ntasks, tuple(trace)))
+            case = {"layer": "copy-mutate", "templates": templates, "tasks": ["main"] * ntasks, "schedule": trace,
+                    "source": src, "copy": cp, "mutation": mut}
+            if changed:
+                res.violate(f"C37:shared-input-modified:{src}", f"after {ntasks} renders of {tsrc!r} (schedule {trace}) the shared "
+                            f"{changed} differ from before although the template only changes `mine`, a {cp.replace('S', src)} "
+                            f"(documented to be a new container)", dict(case, changed=changed))
+            for i, (r, s0) in enumerate(zip(results, solo)):
+                if r != s0:
+                    diffs += 1
+                    res.violate("C37:concurrent-differs-from-alone",
+                                f"task {i} (who={who[i]}) rendered {r!r} with {ntasks - 1} other render(s) ({how} schedule {trace}) but "
+                                f"{s0!r} alone: {tsrc!r} changes a {cp.replace('S', src)} in place between await points; lib = {CM_LIB!r}",
+                                dict(case, task=i, concurrent=r, alone=s0))
+        for payload in dfs_schedules(lambda prefix: run_one(lambda pos: chooser_from_prefix(prefix, pos)), ctx.pick(12, 60)):
+            check(payload, "dfs")
+        for _ in range(ctx.pick(3, 12)):
+            payload, _, _ = run_one(lambda pos: chooser_random(rng, pos))
+            check(payload, "random")
+        payload, _, _ = run_one(lambda pos: (lambda step, active: (pos.append(step % len(active)) or step % len(active))))
+        check(payload, "round-robin")
+    if len(skipped) > len(chosen) // 5:
+        raise core.HarnessError(f"too many copy-then-mutate templates do not render alone: {skipped[:3]}")
+    cov["copy_then_mutate"] = {"productions": len(chosen), "of_all_combinations": len(combos), "schedules": schedules,
+                               "distinct_schedules": len(distinct), "differences": diffs, "copy_forms": forms,
+                               "skipped_because_not_renderable_alone": [s[0][:80] + " -> " + str(s[1])[:80] for s in skipped[:5]],
+                               "skipped": len(skipped)}
+    return schedules, len(distinct)
+
+
 def run(ctx, res):
     jinja2 = core.import_jinja()
     cov = {}
     e1, d1 = l_unit(ctx, res, cov, jinja2)
     e2, d2 = l_e2e(ctx, res, cov, jinja2)
     e3, d3 = l_autoescape(ctx, res, cov, jinja2)
-    e2, d2 = e2 + e3, d2 + d3
+    e4, d4 = l_copy_mutate(ctx, res, cov, jinja2)
+    e2, d2 = e2 + e3 + e4, d2 + d3 + d4
     res.coverage.update({
         "evaluations": e1 + e2,
         "distinct_nontrivial": d1 + d2,
@@ -722,6 +869,8 @@ def replay(ctx, case):
     c = case.get("case", case)
     if "templates" not in c or "tasks" not in c:
         return c
+    if c.get("layer") == "copy-mutate":
+        return replay_copy_mutate(jinja2, c)
     names, trace = c["tasks"], list(c["schedule"])
     mode = c.get("autoescape")
     data = (lambda i: ESC_DATA[i]) if c.get("data") == "ESC_DATA" else task_data
@@ -737,3 +886,26 @@ def replay(ctx, case):
         e = make_env(jinja2, c["templates"], mode)
         solo.append(drive([e.get_template(nm).render_async(**data(i))], lambda s, a: 0)[0][0])
     return {"schedule": tr, "concurrent": results, "alone": solo}
+
+
+def replay_copy_mutate(jinja2, c):
+    who = ["A", "B", "C"]
+    n = len(c["tasks"])
+
+    def build():
+        env = make_env(jinja2, c["templates"])
+        sh = cm_shared()
+        env.globals.update(gl=sh["gl"], gd=sh["gd"])
+        return env, env.get_template("main", globals={"tg": sh["tg"], "td": sh["td"]}), sh
+    env, t, sh = build()
+    it = iter(c["schedule"])
+
+    def choose(step, active):
+        want = next(it, None)
+        return active.index(want) if want in active else 0
+    results, tr, _ = drive([t.render_async(who=who[i], sl=sh["sl"], sd=sh["sd"]) for i in range(n)], choose)
+    solo = []
+    for i in range(n):
+        e, t1, s1 = build()
+        solo.append(drive([t1.render_async(who=who[i], sl=s1["sl"], sd=s1["sd"])], lambda s, a: 0)[0][0])
+    return {"schedule": tr, "concurrent": results, "alone": solo, "shared_after": sh, "shared_fresh": cm_shared()}
